@@ -6,6 +6,8 @@
 set -u
 export GOFLAGS=-mod=mod GOPROXY=off GOSUMDB=off GOTOOLCHAIN=local
 SEED="$1"; PKG="$2"; RUN="$3"
+# VERIF_DEMO_RACE=1: run the demonstration under the race detector (for seeded data races)
+RACE=""; [ -n "${VERIF_DEMO_RACE:-}" ] && RACE="-race"
 WT=/tmp/vseed-$$
 git -C /repo worktree add -q --detach "$WT" HEAD || exit 2
 # generated example code is git-ignored but needed by the suite
@@ -20,9 +22,9 @@ if [ $res = ok ]; then
 fi
 if [ $res = ok ]; then
   cp "$SEED"/demo_test.go "$WT/$PKG/seeded_demo_test.go"
-  if (cd "$WT" && go test -vet=off -count=1 -run "$RUN" "./$PKG/" >/tmp/vseed-$$.with 2>&1); then echo "DEMO PASSES WITH PATCH (should fail)"; res=bad; else echo "demo fails with patch: ok"; fi
+  if (cd "$WT" && go test $RACE -vet=off -count=1 -run "$RUN" "./$PKG/" >/tmp/vseed-$$.with 2>&1); then echo "DEMO PASSES WITH PATCH (should fail)"; res=bad; else echo "demo fails with patch: ok"; fi
   git -C "$WT" apply -R "$SEED/patch.diff"
-  if (cd "$WT" && go test -vet=off -count=1 -run "$RUN" "./$PKG/" >/tmp/vseed-$$.without 2>&1); then echo "demo passes without patch: ok"; else echo "DEMO FAILS WITHOUT PATCH"; tail -5 /tmp/vseed-$$.without; res=bad; fi
+  if (cd "$WT" && go test $RACE -vet=off -count=1 -run "$RUN" "./$PKG/" >/tmp/vseed-$$.without 2>&1); then echo "demo passes without patch: ok"; else echo "DEMO FAILS WITHOUT PATCH"; tail -5 /tmp/vseed-$$.without; res=bad; fi
 fi
 git -C /repo worktree remove --force "$WT"
 rm -f /tmp/vseed-$$.with /tmp/vseed-$$.without
